@@ -351,7 +351,9 @@ class Inliner:
         for fi in self.new:
             self.new_by_name.setdefault(fi.name, []).append(fi)
         known = set(load_inventory().get("functions") or [])
+        self.known = known
         self.known_names = {q.split(".")[-1] for q in known}
+        self._closure_cache: Dict[int, Optional[bool]] = {}
         self.counter = 0
         # a helper that (directly or through other new helpers) calls itself is never inlined
         self._recursive = set()
@@ -380,6 +382,9 @@ class Inliner:
         f = call.func
         repo = self.repo
         if isinstance(f, ast.Name):
+            loc = self._local_closure(f.id, fi)
+            if loc is not None:
+                return loc, ("closure", None)
             cal = fi.module.functions.get(f.id)
             if cal is None and f.id in fi.module.imports and ":" in fi.module.imports[f.id]:
                 modname, attr = fi.module.imports[f.id].split(":")
@@ -430,6 +435,45 @@ class Inliner:
             return cands[0], recv
         return None
 
+    def _local_closure(self, name: str, fi):
+        """A nested function of the host that is NEW w.r.t. the inventory and only ever called directly
+        (`name(...)`, never passed, returned, stored or decorated): calling it is the same as running its body
+        in place - free variables are read at the time of the call either way - so it is written out at its
+        call sites like any other new helper."""
+        top = fi
+        while top.parent is not None:
+            top = top.parent
+        sub = top.nested.get(name)
+        if sub is None or sub.qual in self.known:
+            return None
+        key = id(sub.node)
+        if key not in self._closure_cache:
+            ok = True
+            node = sub.node
+            if node.decorator_list or isinstance(node, ast.AsyncFunctionDef):
+                ok = False
+            a = node.args
+            if a.vararg or a.kwarg or any(d is not None and not isinstance(d, ast.Constant) for d in list(a.defaults) + list(a.kw_defaults)):
+                ok = False
+            if any(isinstance(x, (ast.Nonlocal, ast.Global, ast.Yield, ast.YieldFrom, ast.Await)) for x in ast.walk(node)):
+                ok = False
+            # the name is bound once (the def) and every other mention is the callee of a call
+            callee_ids = {id(c.func) for c in ast.walk(top.node) if isinstance(c, ast.Call)}
+            defs = 0
+            for x in ast.walk(top.node):
+                if isinstance(x, (ast.FunctionDef, ast.AsyncFunctionDef)) and x.name == name and x is not top.node:
+                    defs += 1
+                if isinstance(x, ast.Name) and x.id == name:
+                    if isinstance(x.ctx, ast.Store) or id(x) not in callee_ids:
+                        ok = False
+            if defs != 1:
+                ok = False
+            # no call of itself (directly)
+            if any(isinstance(c, ast.Call) and isinstance(c.func, ast.Name) and c.func.id == name for c in ast.walk(node)):
+                ok = False
+            self._closure_cache[key] = ok
+        return sub if self._closure_cache[key] else None
+
     # ---- one call ------------------------------------------------------------------------
     def expand(self, call: ast.Call, callee, recv, mode, target, caller_names: Set[str], depth: int, with_body=None, as_var=None):
         """Return the statement list that replaces the call. mode: drop | assign | return | with"""
@@ -464,7 +508,9 @@ class Inliner:
         # bind
         binding: Dict[str, ast.AST] = {}
         params = list(pos)
-        if callee.cls is not None and not static:
+        if isinstance(recv, tuple) and recv[0] == "closure":
+            pass   # a local closure: every parameter is bound from the call
+        elif callee.cls is not None and not static:
             if not params:
                 raise NotInlinable("method without self")
             selfp = params.pop(0)
@@ -1005,7 +1051,8 @@ def flatten(repo) -> Optional[Inliner]:
     """Inline the new helpers of `repo` (in place).  Returns the Inliner (for evidence) or None."""
     repo.inlined_constants = inline_new_constants(repo)
     inl = Inliner(repo)
-    if not inl.new:
+    new_closures = [fi for fi in repo.all_funcs() if fi.parent is not None and fi.qual not in inl.known]
+    if not inl.new and not new_closures:
         if repo.inlined_constants:
             for m_ in repo.modules.values():
                 m_.reindex()
@@ -1032,6 +1079,25 @@ def flatten(repo) -> Optional[Inliner]:
                     owner.body.append(ast.Pass())
                 dropped.append(fi.qual)
                 changed_modules.add(fi.module.name)
+    # local closures whose every call was written out are no longer defined in their host
+    for sub in new_closures:
+        if inl.inlined_sites.get(sub.qual) and not inl.left_sites.get(sub.qual):
+            top = sub
+            while top.parent is not None:
+                top = top.parent
+            still_called = any(isinstance(c, ast.Call) and isinstance(c.func, ast.Name) and c.func.id == sub.name for c in ast.walk(top.node)
+                               if c is not sub.node)
+            if still_called:
+                continue
+            for holder in ast.walk(top.node):
+                for fld in ("body", "orelse", "finalbody"):
+                    blk = getattr(holder, fld, None)
+                    if isinstance(blk, list) and sub.node in blk:
+                        blk.remove(sub.node)
+                        if not blk:
+                            blk.append(ast.copy_location(ast.Pass(), sub.node))
+                        dropped.append(sub.qual)
+                        changed_modules.add(top.module.name)
     inl.dropped = dropped
     for name in changed_modules:
         repo.modules[name].reindex()
